@@ -28,6 +28,7 @@ ASSUMPTIONS = ['both sides are real monitors of the same kind fed the same strea
                'scenarios whose reference value is undefined (NaN/overflow) are discarded']
 REAL = common.REAL_ALL
 STUBS = common.STUBS_ALL
+INTERLEAVING_MEASURE = 'distinct (monitor kind, mode, number of updates or batches) tuples'
 PROBES = ['stateful_subspec', 'subspec_referenced_twice', 'nested_subspec', 'constant_used', 'constant_as_bound', 'pastified',
           'online', 'dense_time', 'several_assertions_in_one_text']
 
@@ -131,6 +132,7 @@ def eqn(a, b):
 def run(sc):
     r = Result()
     r.faults.update(sc.get('fired') or {})
+    r.interleavings.add('%s|%s|%s' % (sc.get('kind'), sc.get('mode', ''), sc.get('nbatches') or sc.get('n')))
     if sc.get('nbatches', 1) > 1:
         r.faults['batch_split'] += sc['nbatches'] - 1
     dense = sc['kind'].startswith('ct')
